@@ -183,6 +183,13 @@ fn replay(k: u64, sched: &[Ev], stepwise: bool) -> Option<(usize, Broken)> {
             return Some((step, Broken { class: "orl-wrapped-state-not-kept", obligations: &["ORL.on_msg.ensures.deliver-state"],
                 observed: visible, required: format!("wrapped_state: {:?}", &*log.borrow()) }));
         }
+        let mut uniq = handed.clone();
+        uniq.sort();
+        uniq.dedup();
+        if uniq.len() != handed.len() {
+            return Some((step, Broken { class: "orl-message-handed-over-twice", obligations: &["ORL.on_msg.ensures.deliver-state", "ORL.on_msg.ensures.deliver-cow"],
+                observed: format!("handed={:?} receiver={}", handed, visible), required: format!("every message of sent={:?} is handed over at most once", sent_msgs) }));
+        }
         if stepwise && !(handed.len() <= sent_msgs.len() && handed[..] == sent_msgs[..handed.len()]) {
             return Some((step, Broken { class: "orl-gap-delivery-loses-earlier-message", obligations: &["ORL.lemma.link_inv_preserved_on_gap"],
                 observed: format!("handed={:?} receiver={}", handed, visible), required: format!("handed is a prefix of sent={:?}", sent_msgs) }));
@@ -235,21 +242,7 @@ fn explore(ctx: &mut Ctx, k: u64, alphabet: &[Ev], max_len: usize) {
 }
 
 pub fn run(ctx: &mut Ctx) {
-    // on_timeout(User(t)): a wrapped state change made on a user timer must reach the wrapper's state
-    let case = "user-timeout:t=7";
-    if ctx.want(case) {
-        let w = ActorWrapper::with_default_timeout(T::Ticker { to: Id::from(R) });
-        let mut o: Out<W> = Out::new();
-        let s0 = w.on_start(Id::from(S), &mut o);
-        let mut st = Cow::Borrowed(&s0);
-        let mut o: Out<W> = Out::new();
-        w.on_timeout(Id::from(S), &mut st, &TimerWrapper::User(7), &mut o);
-        let sent = delivers_to(&o, Id::from(R));
-        let visible = format!("{:?}", &*st);
-        let ok = sent == vec![(1, 77)] && visible.contains(&format!("wrapped_state: {:?}", vec![(Id::from(S), 907u64)]));
-        ctx.check(case, "orl-user-timeout-drops-wrapped-state", &["ORL.on_timeout.ensures.user-wrapped-state"], ok,
-            format!("out={:?} state={}", o, visible), "Deliver(1, 77) sent and wrapped_state: [(Id(0), 907)]".into());
-    }
+    // (the on_timeout(User) write-back case was removed: it is outside the wording of C16; see DESIGN.md, observation F-C16-2)
     // the whole story of F-C16-1: everything arrives in reverse order, then the acknowledgements arrive;
     // judged at the end only ("acked => handed over", "nothing pending => handed == sent")
     for k in 2..=3u64 {
